@@ -5,6 +5,7 @@
 From Coq Require Import ZArith List Bool Arith Lia.
 From Cspuz Require Import Lib.PyErr Core.Expr Core.Program Core.Build
   Graph.GraphModel Graph.ReachProofs Graph.Avc Graph.AvcCert Graph.AvcSem Graph.AvcProofs
+  Graph.AvcTyping Graph.AvcTotal
   Graph.Crossable Graph.CrossableGraph Graph.CrossableLocal.
 Import ListNotations.
 Local Open Scope nat_scope.
@@ -557,8 +558,8 @@ Proof.
     assert (Hok : exists st11, post_avc s a g false prim = Ok st11) end.
   { subst single dh dv.
     match goal with |- context [split_actives fr (map _ (seq 0 n)) (map _ (seq 0 n)) (map _ (seq 0 n))] => idtac end.
-    match goal with |- exists st11, post_avc ?s (split_actives fr (map (fun k => BVar (?a + k)) _)
-                                        (map (fun k => BVar (?b + k)) _) (map (fun k => BVar (?c + k)) _)) _ _ _ = _ =>
+    match goal with |- exists st11, post_avc ?s (split_actives fr (map (fun i1 => BVar (?a + i1)) _)
+                                        (map (fun i2 => BVar (?b + i2)) _) (map (fun i3 => BVar (?c + i3)) _)) _ _ _ = _ =>
       set (s0 := s);
       set (acts := split_actives fr (bvars a n) (bvars b n) (bvars c n));
       change (exists st11, post_avc s0 acts (split_graph (fh fr + 1) (fw fr + 1)) false prim = Ok st11)
@@ -629,4 +630,136 @@ Proof.
     intros e He. apply in_app_or in He.
     destruct He as [He|He]; apply in_map_iff in He; destruct He as [i [<- Hi]];
       apply in_seq in Hi; simpl; lia.
+Qed.
+
+(* ------------------------------------------------------------------------ *)
+(* final forms (hypotheses on the frame's entries are syntactic)              *)
+
+Theorem crossable_exact_wt st fr sc prim st' ps cr en :
+  post_crossable st fr sc prim = Ok (st', (ps, cr)) ->
+  fresh_below (next_id st) (hor fr ++ ver fr) ->
+  forallb (wt true) (hor fr ++ ver fr) = true ->
+  ((exists en', agree_below (next_id st) en en' /\
+                in_bounds_from en' (next_id st) (new_vars st st') = true /\
+                forallb (holds gsem_avc en') (new_cons st st') = true)
+   <-> crossable_spec (fh fr) (fw fr) (seg_pattern en fr) sc).
+Proof.
+  intros Hpost Hfr Hwt.
+  apply (crossable_exact_main st fr sc prim st' ps cr Hpost Hfr en).
+  apply wt_acts_defined. exact Hwt.
+Qed.
+
+Theorem crossable_outputs_wt st fr sc prim st' ps cr en' :
+  post_crossable st fr sc prim = Ok (st', (ps, cr)) ->
+  fresh_below (next_id st) (hor fr ++ ver fr) ->
+  forallb (wt true) (hor fr ++ ver fr) = true ->
+  forallb (holds gsem_avc en') (new_cons st st') = true ->
+  length ps = (fh fr + 1) * (fw fr + 1) /\ length cr = (fh fr + 1) * (fw fr + 1) /\
+  forall y x, y <= fh fr -> x <= fw fr ->
+    holds gsem_avc en' (nth (y * (fw fr + 1) + x) ps PyNone)
+      = visited (fh fr) (fw fr) (seg_pattern en' fr) (y, x) /\
+    holds gsem_avc en' (nth (y * (fw fr + 1) + x) cr PyNone)
+      = crossing (fh fr) (fw fr) (seg_pattern en' fr) (y, x).
+Proof.
+  intros Hpost Hfr Hwt Hs.
+  destruct (crossable_returns_main st fr sc prim st' ps cr Hpost Hfr) as [Hps Hcr].
+  split; [rewrite Hps; unfold bvars; rewrite map_length, seq_length; reflexivity|].
+  split; [rewrite Hcr; unfold bvars; rewrite map_length, seq_length; reflexivity|].
+  apply (crossable_outputs_main st fr sc prim st' ps cr Hpost Hfr en'); [|exact Hs].
+  apply wt_acts_defined. exact Hwt.
+Qed.
+
+(* the auxiliary graph is connected on the nodes the code activates exactly when
+   the drawn segments form one strand *)
+Theorem split_graph_connected_iff_strand_enc h w act vact :
+  (forall a, node_in h w a -> vact (enc h w a) = nact h w act a) ->
+  (connected (split_graph (h + 1) (w + 1)) vact <-> strand_connected h w act).
+Proof. apply split_graph_connected_iff_strand. Qed.
+
+(* ------------------------------------------------------------------------ *)
+(* sanity of the statements                                                   *)
+
+(* the hypotheses of crossable_exact are satisfiable: BoolGridFrame(s, 2, 2) on
+   a solver that already holds one variable, both routes *)
+Example crossable_hypotheses_satisfiable :
+  exists st fr st' ps cr st'' ps' cr',
+    post_crossable st fr false false = Ok (st', (ps, cr)) /\
+    post_crossable st fr true true = Ok (st'', (ps', cr')) /\
+    fresh_below (next_id st) (hor fr ++ ver fr) /\
+    forallb (wt true) (hor fr ++ ver fr) = true.
+Proof.
+  destruct (new_frame (fst (bool_var empty_state)) 2 2) as [st fr] eqn:E.
+  destruct (new_frame_ok_main _ _ _ _ _ E) as [_ [_ [Hsh [Hwt Hfr]]]].
+  destruct (crossable_succeeds_main st fr false false Hsh Hwt) as [st' [ps [cr H1]]].
+  destruct (crossable_succeeds_main st fr true true Hsh Hwt) as [st'' [ps' [cr' H2]]].
+  exists st, fr, st', ps, cr, st'', ps', cr'. auto.
+Qed.
+
+(* the empty pattern is a (degenerate) trail *)
+Example crossable_spec_empty h w sc : crossable_spec h w (fun _ => false) sc.
+Proof.
+  assert (Hd : forall p, deg h w (fun _ => false) p = 0).
+  { intros p. unfold deg. induction (segs_at h w p); [reflexivity|exact IHl]. }
+  split.
+  - intros p _. rewrite Hd. split; [left; reflexivity|discriminate].
+  - intros s t [_ Hs]. discriminate.
+Qed.
+
+(* a 3-way point is rejected: all seven segments of the 1 x 2 frame drawn *)
+Example crossable_spec_three_way sc : ~ crossable_spec 1 2 (fun _ => true) sc.
+Proof.
+  intros [Hr _]. destruct (Hr (0, 1)) as [H _]; [split; simpl; lia|].
+  vm_compute in H. destruct H as [H|[[_ H]|[H|H]]]; discriminate.
+Qed.
+
+(* the unit square is a single cycle *)
+Example crossable_spec_unit_square : crossable_spec 1 1 (fun _ => true) true.
+Proof.
+  split.
+  - intros [y x] [Hy Hx]. simpl in Hy, Hx.
+    assert (Hc : (y = 0 \/ y = 1) /\ (x = 0 \/ x = 1)) by lia.
+    destruct Hc as [[-> | ->] [-> | ->]]; (split; [right; right; left; reflexivity|vm_compute; discriminate]).
+  - assert (Hall : forall s, drawn 1 1 (fun _ => true) s ->
+                    s = Seg true 0 0 \/ s = Seg true 0 1 \/ s = Seg false 0 0 \/ s = Seg false 1 0).
+    { intros [[|] y x] [Hs _]; [apply seg_in_v in Hs|apply seg_in_h in Hs].
+      - assert (y = 0) by lia. assert (x = 0 \/ x = 1) as [-> | ->] by lia; subst; auto.
+      - assert (x = 0) by lia. assert (y = 0 \/ y = 1) as [-> | ->] by lia; subst; auto. }
+    (* all four segments lie on the strand of the left side *)
+    assert (D00 : drawn 1 1 (fun _ => true) (Seg true 0 0)) by (split; reflexivity).
+    assert (D01 : drawn 1 1 (fun _ => true) (Seg true 0 1)) by (split; reflexivity).
+    assert (Dh0 : drawn 1 1 (fun _ => true) (Seg false 0 0)) by (split; reflexivity).
+    assert (Dh1 : drawn 1 1 (fun _ => true) (Seg false 1 0)) by (split; reflexivity).
+    assert (C : forall s t p, touches s p -> touches t p -> deg 1 1 (fun _ => true) p <> 4 ->
+                continues 1 1 (fun _ => true) s t).
+    { intros s t p H1 H2 H3. exists p. auto. }
+    assert (N4 : forall p, deg 1 1 (fun _ => true) p <> 4).
+    { intros p H4. apply deg4_interior in H4. unfold interior in H4. lia. }
+    (* from any drawn segment to any other: go round the square *)
+    assert (R : forall s, drawn 1 1 (fun _ => true) s ->
+              strand 1 1 (fun _ => true) s (Seg true 0 0) /\
+              strand 1 1 (fun _ => true) (Seg true 0 0) s).
+    { intros s Hs. destruct (Hall s Hs) as [-> |[-> |[-> | ->]]].
+      - split; apply strand_refl; exact D00.
+      - split.
+        + eapply strand_step; [eapply strand_step; [apply strand_refl; exact D01|exact Dh0|]|exact D00|].
+          * apply (C _ _ (0, 1)); [left; reflexivity|right; reflexivity|apply N4].
+          * apply (C _ _ (0, 0)); [left; reflexivity|left; reflexivity|apply N4].
+        + eapply strand_step; [eapply strand_step; [apply strand_refl; exact D00|exact Dh0|]|exact D01|].
+          * apply (C _ _ (0, 0)); [left; reflexivity|left; reflexivity|apply N4].
+          * apply (C _ _ (0, 1)); [right; reflexivity|left; reflexivity|apply N4].
+      - split.
+        + eapply strand_step; [apply strand_refl; exact Dh0|exact D00|].
+          apply (C _ _ (0, 0)); [left; reflexivity|left; reflexivity|apply N4].
+        + eapply strand_step; [apply strand_refl; exact D00|exact Dh0|].
+          apply (C _ _ (0, 0)); [left; reflexivity|left; reflexivity|apply N4].
+      - split.
+        + eapply strand_step; [apply strand_refl; exact Dh1|exact D00|].
+          apply (C _ _ (1, 0)); [left; reflexivity|right; reflexivity|apply N4].
+        + eapply strand_step; [apply strand_refl; exact D00|exact Dh1|].
+          apply (C _ _ (1, 0)); [right; reflexivity|left; reflexivity|apply N4]. }
+    assert (T : forall a b c, strand 1 1 (fun _ => true) a b -> strand 1 1 (fun _ => true) b c ->
+                strand 1 1 (fun _ => true) a c).
+    { intros a b c Hab Hbc. induction Hbc as [b Hb|b c d Hbc IH Hd Hcd]; [exact Hab|].
+      eapply strand_step; [apply IH; exact Hab|exact Hd|exact Hcd]. }
+    intros s t Hs Ht. apply (T s (Seg true 0 0) t); [apply R; exact Hs|apply R; exact Ht].
 Qed.
